@@ -1025,7 +1025,7 @@ def average_voltages(
 
     er = idb(ER)  # extinction ratio
     p_avg = idbm(P_avg)  # average input power, in [W]
-    g = idb(G)  # gain of EDFA
+    g = idb(G) if amplify else 1  # gain of EDFA (no amplifier: unit gain)
 
     p_ON = p_avg * M / (1 + (M-1)/er) # ON slot average optical power, without amplification
     p_OFF = p_ON/er   # OFF slot average optical power, without amplification
@@ -1088,7 +1088,7 @@ def noise_variances(
     """
     mu, mu_ASE = average_voltages(P_avg, modulation, M, ER, amplify, wavelength, G, NF, BW_opt, r, R_L)
 
-    l = BW_el/BW_opt
+    l = BW_el/BW_opt if amplify else 1
     nf_el = idb(NF_el)
 
     S_sig_ase_i = 2 * mu_ASE * (mu-mu_ASE) * l  # signal-ase beating noise variance, in [V^2]
